@@ -80,7 +80,7 @@ def evaluate(case):
         try:
             mod, mods = genpkg.import_package(d, pkg)
         except BaseException as e:  # noqa
-            out.update(status="import_error", error=f"{type(e).__name__}: {str(e)[:300]}", error_type="MRO" if "method resolution order" in str(e) else type(e).__name__)
+            out.update(status="import_error", error=f"{type(e).__name__}: {str(e)[:300]}", error_type="MRO" if "consistent method resolution" in str(e) else type(e).__name__)
             return out
         adoc = parse(doc_text)
         afrags = {x.name.value: x for x in adoc.definitions if x.kind == "fragment_definition"}
